@@ -292,6 +292,21 @@ def enumerate_paths(fn, start=None, stop=None, limit=5000, follow_back=False):
                             strip_all_casts(first[3]).get("dk") == "local" and len(_defs(fn).get(strip_all_casts(first[3])["decl"], [])) == 1 and \
                             any(a[0] == "truth" and a[1] == first[1] and a[2] != first[2] for a in p.atoms):
                         continue
+                    # ... and so is one that branches against the constant the bool was last given on this very path (the result local of an
+                    # inlined helper: `result = false;` ... `if (!result)` — only the outcome that agrees with the constant is feasible)
+                    if first is not None and first[0] == "truth" and strip_all_casts(first[3]).get("k") == "ref" and \
+                            strip_all_casts(first[3]).get("dk") == "local":
+                        d0 = strip_all_casts(first[3])["decl"]
+                        last = None
+                        for bb in p.blocks:
+                            for eid in cfg.blocks[bb].get("el", []):
+                                nd = fn.node(eid) if isinstance(eid, int) and eid >= 0 else None
+                                if nd is not None and nd.get("k") == "assign" and strip_all_casts(nd["l"]).get("decl") == d0:
+                                    last = nd
+                        if last is not None:
+                            cv0 = const_value(strip_all_casts(last["r"]))
+                            if cv0 is not None and bool(cv0) != first[2]:
+                                continue
                     q.atoms.extend(new_atoms)
                 if blk.get("term", -1) >= 0:
                     q.decisions[blk["term"]] = i
